@@ -531,3 +531,32 @@ pub proof fn lemma_char_pos_boundary(c: Seq<char>, i: int)
     }
 }
 } // verus!
+verus! {
+// ------------------------------------------------------------------ str::trim_start_matches / trim_end_matches (assumed std contracts)
+pub uninterp spec fn spec_trim_start<P>(s: Seq<char>, p: P) -> Seq<char>;
+pub uninterp spec fn spec_trim_end<P>(s: Seq<char>, p: P) -> Seq<char>;
+#[verifier::allow(undeclared_external_trait)]
+pub assume_specification<'a, P: std::str::pattern::Pattern> [str::trim_start_matches::<P>] (s: &'a str, pat: P) -> (r: &'a str)
+    ensures r@ == spec_trim_start(s@, pat);
+#[verifier::allow(undeclared_external_trait)]
+pub assume_specification<'a, P: std::str::pattern::Pattern> [str::trim_end_matches::<P>] (s: &'a str, pat: P) -> (r: &'a str)
+    where for<'b> <P as std::str::pattern::Pattern>::Searcher<'b>: std::str::pattern::ReverseSearcher<'b>,
+    ensures r@ == spec_trim_end(s@, pat);
+/// repeated removal of a non-empty prefix / suffix
+pub open spec fn strip_prefixes(s: Seq<char>, p: Seq<char>) -> Seq<char>
+    decreases s.len(),
+{
+    if p.len() > 0 && s.len() >= p.len() && s.take(p.len() as int) == p { strip_prefixes(s.skip(p.len() as int), p) } else { s }
+}
+pub open spec fn strip_suffixes(s: Seq<char>, p: Seq<char>) -> Seq<char>
+    decreases s.len(),
+{
+    if p.len() > 0 && s.len() >= p.len() && s.skip(s.len() - p.len()) == p { strip_suffixes(s.take(s.len() - p.len()), p) } else { s }
+}
+#[verifier::external_body]
+pub broadcast proof fn axiom_trim_start_str(s: Seq<char>, p: &str)
+    ensures #[trigger] spec_trim_start(s, p) == strip_prefixes(s, p@) {}
+#[verifier::external_body]
+pub broadcast proof fn axiom_trim_end_str(s: Seq<char>, p: &str)
+    ensures #[trigger] spec_trim_end(s, p) == strip_suffixes(s, p@) {}
+} // verus!
